@@ -432,6 +432,57 @@ fn threaded(t: &Threaded) -> Result<CaseReport, Failure> {
     res
 }
 
+/// T client-library connections x N `update()` calls (the library's own cget -> cset retry loop)
+fn client_update(t: &Threaded) -> Result<CaseReport, Failure> {
+    let rt = tokio::runtime::Builder::new_multi_thread()
+        .worker_threads(4)
+        .enable_all()
+        .build()
+        .map_err(|e| Failure::new("c02.runtime", "runtime", e.to_string()))?;
+    let t = t.clone();
+    let res = rt.block_on(async move {
+        let ws = crate::wire::WireServer::start("C02", |_| {}).await.map_err(|e| Failure::new("c02.server", "server starts", e))?;
+        let key = "verif/counter".to_owned();
+        let observer = super::c20::connect_client(&ws).await?;
+        let mut handles = vec![];
+        for _ in 0..t.tasks {
+            let wb = super::c20::connect_client(&ws).await?;
+            let key = key.clone();
+            handles.push(tokio::spawn(async move {
+                for _ in 0..t.increments {
+                    wb.update(key.clone(), || 0u64, |v| *v += 1).await.map_err(|e| format!("update: {e}"))?;
+                }
+                Ok::<(), String>(())
+            }));
+        }
+        for h in handles {
+            match h.await {
+                Ok(Ok(())) => {}
+                Ok(Err(e)) => return Err(Failure::new("c02.client_update.request", "every update() call returns Ok", e)),
+                Err(e) => return Err(Failure::new("c02.client_update.task", "task completes", e.to_string())),
+            }
+        }
+        let total = (t.tasks * t.increments) as u64;
+        let fin = observer
+            .cget::<u64>(key.clone())
+            .await
+            .map_err(|e| Failure::new("c02.client_update.final", "value", e.to_string()))?;
+        if fin != Some((total, total)) {
+            return Err(Failure::new("c02.client_update.lost_update", format!("counter == version == {total}"), format!("{fin:?}")));
+        }
+        drop(observer);
+        ws.stop().await.map_err(|e| Failure::new("c02.client_update.server", "clean stop", e))?;
+        Ok(CaseReport {
+            nontrivial: t.tasks >= 2,
+            classes: vec!["client_library_update_loop"],
+            counters: vec![("increments", total)],
+            ..Default::default()
+        })
+    });
+    rt.shutdown_timeout(std::time::Duration::from_secs(5));
+    res
+}
+
 pub fn run(cfg: &RunCfg) -> i32 {
     let mut check = Check::new(cfg, "exploration");
     check.assume("the harness owns the schedule at request granularity on the direct core (one request at a time, as the server task applies them); every mutating request is bracketed by the harness' own cget");
@@ -485,6 +536,29 @@ pub fn run(cfg: &RunCfg) -> i32 {
         check.add_part(
             "threaded",
             "T in 2..=8 tasks x N in 5..=44 cget->cset retry increments of one counter through the in-process server on a 4-thread runtime; oracle: final counter == final CAS version == T*N, a plain subscriber sees 1..=T*N gap-free and in order; non-trivial = at least one version conflict happened",
+            false,
+            agg,
+        );
+    }
+    if !check.has_violation() {
+        let runs = cfg.cases(8, 300) as usize;
+        let mut agg = crate::util::Agg::default();
+        for i in 0..runs {
+            let h = crate::util::mix(cfg.seed, "C02/client_update", i as u64);
+            // at most 3 x 20 = 60 competing increments: fewer than the library's 100 retries, so that giving up is never legitimate
+            let c = Threaded { tasks: 2 + (h % 3) as usize, increments: 3 + ((h >> 8) % 18) as usize };
+            match crate::util::guarded(|| client_update(&c)) {
+                Ok(rep) => agg.merge_case(crate::util::hash_json(&c), &rep, || serde_json::to_value(&c).unwrap_or(Value::Null)),
+                Err(f) => {
+                    agg.evaluations += 1;
+                    check.violate("client_update", &c, f);
+                    break;
+                }
+            }
+        }
+        check.add_part(
+            "client_update",
+            "T in 2..=4 worterbuch-client connections (unix socket, real server) x N in 3..=20 calls of the library's update() (its own cget -> cset retry loop) on one counter; oracle: every call returns Ok, final counter == final CAS version == T*N; non-trivial = at least two competing connections; distinct = (T, N)",
             false,
             agg,
         );
